@@ -31,13 +31,14 @@ def keys (x : Index) : List (SqlVal × Bool) := x.cache.rows.map (fun r => (r.ke
 
 /-- `len(index)` is the number of entries -/
 theorem len_exact (x : Index) (h : Ok x) : (x.len).2 = .int x.cache.rows.length := by
-  sorry
+  exact Cache.len_exact x.cache h.inv
 
 /-- iteration yields every key once, in insertion order; reversed iteration the reverse -/
 theorem iter_order (x : Index) (E : Externals) (h : Ok x) (hp : 0 < x.cache.cfg.page) :
     (x.iter E true).2 = .list (x.cache.rows.map (fun r => Cache.keyOut E x.cache.cfg.disk r.key r.raw)) ∧
     (x.iter E false).2 = .list (x.cache.rows.reverse.map (fun r => Cache.keyOut E x.cache.cfg.disk r.key r.raw)) := by
-  sorry
+  exact ⟨Cache.iter_all x.cache E h.inv.tbl.asc h.inv.tbl.pos hp,
+    Cache.riter_all x.cache E h.inv.tbl.asc h.inv.tbl.pos hp⟩
 
 /-- assignment to a NEW key appends it at the end; every other entry is untouched -/
 theorem setitem_new (x : Index) (E : Externals) (now : Int) (k v : PyVal) (h : Ok x)
@@ -46,7 +47,16 @@ theorem setitem_new (x : Index) (E : Externals) (now : Int) (k v : PyVal) (h : O
     ∃ r : Row, (x.setitem E now k v).1.cache.rows = x.cache.rows ++ [r] ∧
       r.key = (dbk x E k).1 ∧ r.raw = (dbk x E k).2 ∧ r.mode = c.mode ∧ r.val = c.val ∧ r.file = c.file ∧
       r.expT = none := by
-  sorry
+  have hcb' : Cache.Cols.bindable { c with expT := none, tag := .null } = true := by
+    simp only [Cache.Cols.bindable, Bool.and_eq_true] at hcb ⊢
+    exact ⟨rfl, hcb.2⟩
+  have hrows := Cache.set_rows_noexp x.cache E now k v .null h.depth h.pol h.noexp s1 c hst hb hcb'
+  have hst' : (x.setitem E now k v).1.cache = (x.cache.set E now k v none false .null).1 := rfl
+  have hsel : x.cache.selKey (dbk x E k).1 (dbk x E k).2 = none := Cache.selKey_none_iff.2 hnew
+  rw [hst', hrows]
+  unfold Cache.setRows
+  rw [show DC.put E x.cache.cfg.disk k = dbk x E k from rfl, hsel]
+  exact ⟨_, rfl, rfl, rfl, rfl, rfl, rfl, rfl⟩
 
 /-- assignment to an EXISTING key keeps its position (and every other entry) and replaces the value -/
 theorem setitem_existing (x : Index) (E : Externals) (now : Int) (k v : PyVal) (h : Ok x)
@@ -56,12 +66,39 @@ theorem setitem_existing (x : Index) (E : Externals) (now : Int) (k v : PyVal) (
     (∀ r ∈ (x.setitem E now k v).1.cache.rows,
         (Cache.keyMatch (dbk x E k).1 (dbk x E k).2 r = true → r.mode = c.mode ∧ r.val = c.val ∧ r.file = c.file) ∧
         (Cache.keyMatch (dbk x E k).1 (dbk x E k).2 r = false → r ∈ x.cache.rows)) := by
-  sorry
+  have hcb' : Cache.Cols.bindable { c with expT := none, tag := .null } = true := by
+    simp only [Cache.Cols.bindable, Bool.and_eq_true] at hcb ⊢
+    exact ⟨rfl, hcb.2⟩
+  have hrows := Cache.set_rows_noexp x.cache E now k v .null h.depth h.pol h.noexp s1 c hst hb hcb'
+  have hst' : (x.setitem E now k v).1.cache = (x.cache.set E now k v none false .null).1 := rfl
+  rw [show DC.put E x.cache.cfg.disk k = dbk x E k from rfl] at hrows
+  obtain ⟨r0, hsel, -, -⟩ := Cache.selKey_some_of_any (s := x.cache) hold
+  refine ⟨?_, ?_⟩
+  · unfold keys
+    rw [hst', hrows]
+    unfold Cache.setRows
+    rw [hsel]
+    simp only [List.map_map]
+    apply List.map_congr_left
+    intro r _
+    simp only [Function.comp, Cache.updF]
+    split <;> rfl
+  · intro r hr
+    rw [hst'] at hr
+    refine ⟨fun hk => ?_, fun hk => ?_⟩
+    · rw [hrows] at hr
+      obtain ⟨h1, h2, h3⟩ := Cache.setRows_match h.inv.tbl.uniq hr hk
+      exact ⟨h1, h3, h2⟩
+    · exact Cache.set_other_rows x.cache E now k v none false .null h.inv r hr hk
 
 /-- the invariant is kept by assignment (so the theorems compose over histories) -/
 theorem setitem_ok (x : Index) (E : Externals) (now : Int) (k v : PyVal) (h : Ok x) :
     Ok (x.setitem E now k v).1 := by
-  sorry
+  have hst : (x.setitem E now k v).1 = { cache := (x.cache.set E now k v none false .null).1 } := rfl
+  rw [hst]
+  obtain ⟨h1, h2, h3⟩ := Cache.set_keeps x.cache E now k v .null h.depth h.noexp
+  exact ⟨Cache.set_inv x.cache E now k v none false .null h.inv, by rw [h2]; exact h.pol, h3, h1,
+    by rw [h2]; exact h.disk⟩
 
 /-- `del index[key]` removes exactly that entry, keeping the order of the others; a missing key
 raises KeyError and changes nothing -/
@@ -71,11 +108,37 @@ theorem delitem_exact (x : Index) (E : Externals) (now : Int) (k : PyVal) (h : O
       (x.delitem E now k).1.cache.rows = x.cache.rows.filter (fun r => !Cache.keyMatch (dbk x E k).1 (dbk x E k).2 r)) ∧
     (hasKey x E k = false →
       (x.delitem E now k).2 = .exc "KeyError" ∧ (x.delitem E now k).1.cache.rows = x.cache.rows) := by
-  sorry
+  have hsel := Cache.selLive_eq_selKey h.noexp (DC.put E x.cache.cfg.disk k).1 (DC.put E x.cache.cfg.disk k).2 now
+  have hout : (x.delitem E now k).2 =
+      (match (x.cache.delitem E now k).2 with | .bool true => .none | o => o) := rfl
+  have hst : (x.delitem E now k).1.cache = (x.cache.delitem E now k).1 := rfl
+  refine ⟨fun hhas => ?_, fun hno => ?_⟩
+  · obtain ⟨r, hr, hmem, hk⟩ := Cache.selKey_some_of_any (s := x.cache) hhas
+    obtain ⟨h1, h2, -⟩ := Cache.delitem_some x.cache E now k r (hsel.trans hr)
+    rw [hout, hst, h1, h2]
+    exact ⟨rfl, Cache.filter_rowid_eq_filter_key h.inv.tbl.asc h.inv.tbl.uniq hmem hk⟩
+  · have hr : x.cache.selKey (DC.put E x.cache.cfg.disk k).1 (DC.put E x.cache.cfg.disk k).2 = none :=
+      Cache.selKey_none_iff.2 hno
+    obtain ⟨h1, h2, -⟩ := Cache.delitem_none x.cache E now k (hsel.trans hr)
+    rw [hout, hst, h1, h2]
+    exact ⟨rfl, rfl⟩
 
 theorem delitem_ok (x : Index) (E : Externals) (now : Int) (k : PyVal) (h : Ok x) :
     Ok (x.delitem E now k).1 := by
-  sorry
+  have hst : (x.delitem E now k).1 = { cache := (x.cache.delitem E now k).1 } := rfl
+  rw [hst]
+  have hinv := Cache.delitem_inv x.cache E now k h.inv
+  cases hsel : x.cache.selLive (DC.put E x.cache.cfg.disk k).1 (DC.put E x.cache.cfg.disk k).2 now with
+  | none =>
+    obtain ⟨-, h2, h3, h4⟩ := Cache.delitem_none x.cache E now k hsel
+    exact ⟨hinv, by rw [h3]; exact h.pol, by rw [h2]; exact h.noexp, by rw [h4]; exact h.depth,
+      by rw [h3]; exact h.disk⟩
+  | some r =>
+    obtain ⟨-, h2, h3, h4, -⟩ := Cache.delitem_some x.cache E now k r hsel
+    refine ⟨hinv, by rw [h3]; exact h.pol, ?_, by rw [h4]; exact h.depth, by rw [h3]; exact h.disk⟩
+    rw [h2]
+    intro y hy
+    exact h.noexp y (List.mem_filter.1 hy).1
 
 /-- a present key is always found: look-up returns the value of its entry (C01 says that is the
 value stored), a missing key raises KeyError -/
@@ -85,21 +148,114 @@ theorem getitem_found (x : Index) (E : Externals) (now : Int) (k : PyVal) (h : O
     (∀ r ∈ x.cache.rows, Cache.keyMatch (dbk x E k).1 (dbk x E k).2 r = true →
       (x.cache.fetchRow E r false).2 ≠ .ioerror →
       (x.getitem E now k).2 = Cache.fetchedOut (x.cache.fetchRow E r false).2) := by
-  sorry
+  have hget := Cache.get_fast x.cache E now k hfast h.pol
+  have hout : (x.getitem E now k).2 = keyErr (x.cache.get E now k false false false).2 := rfl
+  rw [hout, hget, Cache.selLive_eq_selKey h.noexp]
+  refine ⟨fun hno => ?_, fun r hr hk hf => ?_⟩
+  · have : x.cache.selKey (DC.put E x.cache.cfg.disk k).1 (DC.put E x.cache.cfg.disk k).2 = none :=
+      Cache.selKey_none_iff.2 hno
+    rw [this]; rfl
+  · have : x.cache.selKey (DC.put E x.cache.cfg.disk k).1 (DC.put E x.cache.cfg.disk k).2 = some r :=
+      Cache.selKey_eq_of_mem h.inv.tbl.uniq hr hk
+    rw [this]
+    simp only
+    cases hc : (x.cache.fetchRow E r false).2 with
+    | ioerror => exact absurd hc hf
+    | val v => rfl
+    | handle b => rfl
+
+/- STATEMENT AS GIVEN — FALSE without a law of the key codec (see `popitem_end_needs_codec` below):
+
+theorem popitem_end (x : Index) (E : Externals) (now : Int) (last : Bool) (h : Ok x) : <same conclusion>
+
+`popitem` finds the row to delete again through the Python key it decoded from the edge row
+(`del self[key]`), so the stored key must survive decode-then-encode.  Added hypothesis `hcodec`;
+it holds for every row written through `put` under lawful codecs (`codec_of_put`). -/
 
 /-- `popitem()` removes and returns the LAST entry, `popitem(last=False)` the FIRST; on an empty
 index it raises KeyError -/
-theorem popitem_end (x : Index) (E : Externals) (now : Int) (last : Bool) (h : Ok x) :
+theorem popitem_end (x : Index) (E : Externals) (now : Int) (last : Bool) (h : Ok x)
+    (hcodec : ∀ r ∈ x.cache.rows,
+      DC.put E x.cache.cfg.disk (DC.get E x.cache.cfg.disk r.key r.raw) = (r.key, r.raw)) :
     (x.cache.rows = [] → (x.popitem E now last).2 = .exc "KeyError" ∧ (x.popitem E now last).1.cache.rows = []) ∧
     (∀ r, (if last then x.cache.rows.getLast? else x.cache.rows.head?) = some r →
       (x.cache.fetchRow E r false).2 ≠ .ioerror →
       (x.popitem E now last).1.cache.rows = x.cache.rows.filter (fun y => y.rowid != r.rowid) ∧
       (x.popitem E now last).2 = .tup [Cache.keyOut E x.cache.cfg.disk r.key r.raw,
                                        Cache.fetchedOut (x.cache.fetchRow E r false).2]) := by
-  sorry
+  obtain ⟨b1, b2, b3, b4, b5⟩ := Cache.tbegin_zero x.cache h.depth
+  have hpos : x.cache.tbegin.depth > 0 := by rw [b3]; omega
+  refine ⟨fun hempty => ?_, fun r hedge hf => ?_⟩
+  · have hpeek := Cache.peekitem_block_empty x.cache.tbegin E now last hpos (b1.trans hempty)
+    unfold popitem
+    simp only [hpeek]
+    refine ⟨trivial, ?_⟩
+    rw [Cache.traise_one_rows (x.cache.tbegin.logSql "selEdge") x.cache.takeSnap b3 b4]
+    exact hempty
+  · have hr : r ∈ x.cache.rows := by
+      cases last
+      · exact List.mem_of_mem_head? hedge
+      · exact List.mem_of_getLast? hedge
+    have hedge' : (if last then x.cache.tbegin.rows.getLast? else x.cache.tbegin.rows.head?) = some r := by
+      rw [b1]; exact hedge
+    have hfe : (x.cache.tbegin.fetchRow E r false).2 = (x.cache.fetchRow E r false).2 :=
+      Cache.fetchRow_snd_congr_q _ _ E r false b5 b2
+    obtain ⟨c, hpeek, c1, c2, c3, c4⟩ := Cache.peekitem_block_edge x.cache.tbegin E now last hpos r
+      hedge' (h.noexp r hr) (by rw [hfe]; exact hf)
+    unfold popitem
+    simp only [hpeek, Cache.keyOut]
+    have hput : DC.put E c.cfg.disk (DC.get E x.cache.tbegin.cfg.disk r.key r.raw) = (r.key, r.raw) := by
+      rw [c2, b2]; exact hcodec r hr
+    have hsel : c.selLive (DC.put E c.cfg.disk (DC.get E x.cache.tbegin.cfg.disk r.key r.raw)).1
+        (DC.put E c.cfg.disk (DC.get E x.cache.tbegin.cfg.disk r.key r.raw)).2 now = some r := by
+      rw [hput]
+      exact Cache.live_visible_partial c (by rw [c1, b1]; exact h.inv.tbl.uniq) r
+        (by rw [c1, b1]; exact hr) (h.inv.tbl.nonnull r hr) now (Cache.live_of_noexp (h.noexp r hr) now)
+    obtain ⟨-, d2, -⟩ := Cache.delitem_some c E now _ r hsel
+    refine ⟨?_, ?_⟩
+    · rw [Cache.tend_rows, d2, c1, b1]
+    · rw [hfe, b2]
+
+/-- `hcodec` holds for every row whose stored key is the encoding of some Python key, when the
+codecs are lawful — that is, for every row an Index ever writes -/
+theorem codec_of_put (x : Index) (E : Externals) (hE : Lawful E) (h : Ok x) (r : Row) (k : PyVal)
+    (hk : (r.key, r.raw) = dbk x E k) :
+    DC.put E x.cache.cfg.disk (DC.get E x.cache.cfg.disk r.key r.raw) = (r.key, r.raw) := by
+  have h1 : r.key = (dbk x E k).1 := congrArg Prod.fst hk
+  have h2 : r.raw = (dbk x E k).2 := congrArg Prod.snd hk
+  rw [hk, h1, h2]
+  unfold dbk
+  rw [h.disk]
+  exact Cache.put_get_put E hE k
+
+/-- why `popitem_end` needs `hcodec`: a well-formed Index whose only row has a key that is not the
+encoding of any Python key (an integer outside int64 stored raw).  `popitem` returns the item but
+`del self[key]` looks for the pickled key, finds nothing, and the row stays. -/
+def exBigRow : Row :=
+  { rowid := 1, key := .int 18446744073709551616, raw := true, storeT := 0, expT := none, accT := 0,
+    accN := 0, tag := .null, size := 0, mode := 1, file := none, val := .int 0 }
+
+def exIx : Index := { cache := { rows := [exBigRow], count := 1, cfg := { policy := .none } } }
+
+theorem exIx_ok : Ok exIx := by
+  refine ⟨⟨⟨?_, ?_, ?_, ?_, rfl, rfl⟩, nofun⟩, rfl, ?_, rfl, rfl⟩
+  · simp [exIx, Cache.RowidsAsc]
+  · simp [exIx, exBigRow]
+  · simp [exIx, Cache.KeysUnique]
+  · simp [exIx, exBigRow]
+  · simp [exIx, exBigRow]
+
+theorem popitem_end_needs_codec :
+    Ok exIx ∧ exIx.cache.rows.getLast? = some exBigRow ∧
+    (exIx.cache.fetchRow Cache.exE exBigRow false).2 ≠ .ioerror ∧
+    (exIx.popitem Cache.exE 0 true).1.cache.rows ≠
+      exIx.cache.rows.filter (fun y => y.rowid != exBigRow.rowid) := by
+  refine ⟨exIx_ok, rfl, ?_, ?_⟩
+  · decide
+  · decide +kernel
 
 /-- nothing is ever lost to eviction or expiry: a write's lazy cull removes nothing -/
 theorem never_loses (x : Index) (now : Int) (h : Ok x) : (x.cache.cullW now).1.rows = x.cache.rows := by
-  sorry
+  exact Cache.cullW_noexp x.cache now h.pol h.noexp
 
 end DC.Index
